@@ -3,6 +3,10 @@
 
   v = open(..) / io.open(..)                  -> openV v          (itself a raise point)
   with open(..) as f: B                       -> withOpen [[B]]
+  with helper(..) as f: B   (helper a generator decorated with contextlib.contextmanager, defined in las/reader/writer.py)
+                                              -> the helper's body inlined, every `yield v` replaced by
+                                                 tryFinally (move f v ; [[B]]) (move v f)   (an exception or return in B is
+                                                 raised at the yield, as Python does; f and v name the same handle)
   v.close() / if hasattr(v,"close"): v.close()-> close v
   try/finally, try/except, if, for/while, return, raise -> their namesakes
       (an except clause is `choice handler raise`: the exception may not match)
@@ -148,6 +152,24 @@ class Gen:
     def __init__(self):
         self.tr = Tr()
 
+    def ctx_helper(self, call):
+        """the FunctionDef of a generator-based context manager (`@contextlib.contextmanager`) of las / reader / writer called as
+        helper(..), self.helper(..) or module.helper(..); None when the callee is something else"""
+        f = call.func
+        name = f.id if isinstance(f, ast.Name) else f.attr if isinstance(f, ast.Attribute) else None
+        if name is None:
+            return None
+        for mod in ("las", "reader", "writer"):
+            try:
+                tree = self.tr.tree(mod)
+            except Exception:
+                continue
+            for n in ast.walk(tree):
+                if isinstance(n, ast.FunctionDef) and n.name == name and \
+                        any(ast.unparse(d).split("(")[0].split(".")[-1] == "contextmanager" for d in n.decorator_list):
+                    return n
+        return None
+
     def handle_target(self, scope, t):
         if isinstance(t, ast.Name):
             return t.id
@@ -199,6 +221,17 @@ class Gen:
         return out
 
     def stmt(self, scope, s):
+        if isinstance(s, ast.Expr) and isinstance(s.value, ast.Yield) and getattr(scope, "yield_body", None) is not None:
+            v = s.value.value
+            eff = []
+            if isinstance(v, ast.Name) and scope.yield_target is not None:
+                src = self.tr.var(scope, v.id)
+                dst = self.tr.vars.setdefault(scope.yield_target, len(self.tr.vars))
+                if src != dst:
+                    return "(.tryFinally %s (.move %d %d))" % (seq(["(.move %d %d)" % (dst, src), scope.yield_body]), src, dst)
+            elif v is not None:
+                eff = self.expr_effects(scope, v)
+            return seq(eff + [scope.yield_body])
         if isinstance(s, ast.Assign):
             t = s.targets[0]
             if isinstance(t, ast.Name) and t.id in scope.flagnames and isinstance(s.value, ast.Constant):
@@ -258,6 +291,30 @@ class Gen:
             elif risky(s.target) or True:
                 body = seq([".mayRaise", body])      # the iterator's __next__ may raise on every round
             return seq(it + ["(.loop %s)" % body, choice(self.block(scope, s.orelse), ".skip") if s.orelse else ".skip"])
+        if isinstance(s, ast.With) and len(s.items) == 1 and isinstance(s.items[0].context_expr, ast.Call) \
+                and callname(s.items[0].context_expr) not in OPEN_CALLS and scope.depth < MAX_DEPTH:
+            ce = s.items[0].context_expr
+            fn = self.ctx_helper(ce)
+            if fn is not None:
+                if any(isinstance(n, ast.Return) for n in ast.walk(fn)):
+                    raise Unsupported("return inside a context-manager helper")
+                body = self.block(scope, s.body)
+                params = [a.arg for a in fn.args.args]
+                if params and params[0] == "self" and isinstance(ce.func, ast.Attribute):
+                    params = params[1:]
+                bind = {}
+                for p_, a in zip(params, ce.args):
+                    if isinstance(a, ast.Name):
+                        bind[p_] = scope.bind.get(a.id, (scope.uid, a.id))
+                for kw in ce.keywords:
+                    if kw.arg and isinstance(kw.value, ast.Name):
+                        bind[kw.arg] = scope.bind.get(kw.value.id, (scope.uid, kw.value.id))
+                inner = Scope(fn, bind, None, scope.depth + 1)
+                inner.yield_body = body
+                ov = s.items[0].optional_vars
+                inner.yield_target = scope.bind.get(ov.id, (scope.uid, ov.id)) if isinstance(ov, ast.Name) else None
+                args_eff = [x for a in list(ce.args) + [k.value for k in ce.keywords] for x in self.expr_effects(scope, a)]
+                return seq(args_eff + [".mayRaise", self.block(inner, fn.body)])
         if isinstance(s, ast.With):
             body = self.block(scope, s.body)
             for item in reversed(s.items):
